@@ -74,3 +74,28 @@ def gen_EvictOldest(rng):
 def gen_StoreUpdate(rng):
     s = rand_store(rng)
     return dict(self=s, handler=rand_handler(rng))
+
+
+# ------------------------------------------------------------------ event log
+def rand_envelope(rng):
+    from llama_agents.client.protocol.serializable_events import EventEnvelopeWithMetadata
+    return EventEnvelopeWithMetadata(value={"n": rng.randrange(5)}, qualified_name=None,
+                                     type=rng.choice(["Event", "StopEvent"]), types=None)
+
+
+def rand_log_store(rng):
+    from llama_agents.server._store.abstract_workflow_store import StoredEvent
+    s = rand_store(rng)
+    for run in rng.sample(["r1", "r2", "r3"], rng.randrange(0, 4)):
+        s.events[run] = [StoredEvent(run_id=run, sequence=i, timestamp=datetime(2026, 1, 1, tzinfo=timezone.utc),
+                                     event=rand_envelope(rng)) for i in range(rng.randrange(0, 5))]
+    return s
+
+
+def gen_AppendEvent(rng):
+    return dict(self=rand_log_store(rng), run_id=rng.choice(["r1", "r2", "r3", "r4"]), event=rand_envelope(rng))
+
+
+def gen_QueryEvents(rng):
+    return dict(self=rand_log_store(rng), run_id=rng.choice(["r1", "r2", "r3", "r4"]),
+                after_sequence=rng.choice([None, None, -1, 0, 1, 2, 3, 7]), limit=rng.choice([None, None, 0, 1, 2, 10]))
